@@ -333,9 +333,22 @@ func nGenerate(job *nJob) []genInfo {
 			info.Tape = tp.Values()
 		} else {
 			tc = genCase(tp, name, job.GenThorough)
-			info = genInfo{Name: name, Tape: tp.Values(), Stream: tc.Request.StreamType.String(), NReq: len(tc.Request.RequestMessages)}
+			degenerate := ""
+			if tp.Bool(1, 10, "degenerate") {
+				// a parseable but malformed definition: only loaded (it must be
+				// rejected with an error or accepted, never crash), never run
+				degenerate = genDegenerate(tp, tc)
+			}
+			info = genInfo{Name: name, Tape: tp.Values(), Stream: tc.GetRequest().GetStreamType().String(), NReq: len(tc.GetRequest().GetRequestMessages())}
 			info.Load = genLoadCheck(dir, tc, configCases, mode)
-			info.Shape = genShape(tc)
+			if degenerate != "" {
+				info.Shape = "degenerate: " + degenerate
+				if info.Load == "ok" {
+					info.Load = "ok (load-only)"
+				}
+			} else {
+				info.Shape = genShape(tc)
+			}
 		}
 		if def, err := protojson.Marshal(tc); err == nil && (len(def) < 6000 || info.Load != "ok") {
 			info.Def = string(def)
